@@ -187,7 +187,7 @@ func GenCache(seed uint64) *Scenario {
 	bs.Games = gs
 	// every crash point of the save for small books
 	bs.AllPrefixes = n <= 8
-	kinds := []string{"truncate", "truncate", "flip", "flip", "flip", "garbage", "empty", "missing", "dir", "append", "zerofill"}
+	kinds := []string{"truncate", "truncate", "flip", "flip", "flip", "garbage", "empty", "missing", "dir", "fulldisk", "append", "zerofill"}
 	k := rng.Range(6, 30)
 	if large {
 		k = 4
